@@ -46,7 +46,7 @@ def install_audit():
             body = REMOTE_FILES.get(url.lower())
             if body is None:
                 raise urllib.error.URLError("stub: no such remote document " + url)
-            resp = urllib.response.addinfourl(io.BytesIO(body.encode()), {"Content-Type": "text/xml"}, url)
+            resp = urllib.response.addinfourl(io.BytesIO(body if isinstance(body, bytes) else body.encode()), {"Content-Type": "text/xml"}, url)
             resp.code, resp.msg = 200, "OK"
             return resp
 
